@@ -12,6 +12,7 @@ The recursive prefilter uses `sqrt/log/pow` and is modelled at `Float` only.
 -/
 import Mahotas.Model.Border
 import Mahotas.Model.DType
+import Mahotas.Model.C18Shape
 namespace Mahotas.C18
 open Mahotas
 
@@ -193,6 +194,30 @@ def resizeRgbTo (fl : α → Int) (pre : Img α → Img α) (order : Nat) (im : 
     let chs := (List.range 3).filterMap fun c => resizeTo fl pre order (channel im c) nsize
     if chs.length ≠ 3 then none else some (dstack nsize chs)
 
+/-- `zoom(array, factor, order, mode)` without `out`: the scalar-to-vector broadcast and the length check
+    (`zoomFactors`), `output_shape = int(s * z)` per axis (`zoomOutShape`, `Model/C18Shape.lean`), then — like every
+    call — the factors handed to `zoom_shift` are recomputed from the shapes (`zoomGlue`). `none` = raises. -/
+def zoomByFactor (fl : α → Int) (pre : Img α → Img α) (order : Nat) (m : Mode) (cval : α) (im : Img α)
+    (scalar : Bool) (zs : List α) : Option (Img α) :=
+  match zoomOutShape fl im.shape (zoomFactors im.shape.length scalar zs) with
+  | none => none
+  | some os => some (zoomGlue fl order m cval (pre im) os)
+
+/-- `imresize(img, nsize, order)` on its factor path (`nsize` a float, or a sequence whose first entry is not a
+    Python `int`): `return zoom(img, nsize, order=order)` (defaults `mode='constant'`, `cval=0.0`) -/
+def imresizeFactor (fl : α → Int) (pre : Img α → Img α) (order : Nat) (img : Img α) (scalar : Bool) (zs : List α) :
+    Option (Img α) :=
+  zoomByFactor fl pre order .constant ((0 : Nat) : α) img scalar zs
+
+/-- `resize_to` on an image of an integer dtype `dt`: `out = np.empty(nsize, dtype=im.dtype)`; `zoom` works in
+    `float64` and ends with `o_out[:] = out[:]` — every interpolated value is truncated toward zero (`castToInt`;
+    `none` entries: outside the dtype's range, not modelled) -/
+def resizeToDT (fl : α → Int) (pre : Img α → Img α) (order : Nat) (dt : DT) (im : Img α) (nsize : List Nat) :
+    Option (Img (Option Int)) :=
+  match resizeTo fl pre order im nsize with
+  | none => none
+  | some r => some { shape := r.shape, data := r.data.map (castToInt fl dt) }
+
 /-! ### specification (the statement's words)
 
 Along one axis, for the coordinate `cc` an output index maps to:
@@ -344,6 +369,16 @@ def splineFilter (order : Nat) (im : Img Float) : Img Float :=
 
 /-! ## driver -/
 
+def showOptInts (xs : List (Option Int)) : String :=
+  ",".intercalate (xs.map fun | some i => toString i | none => "u")
+
+/-- the factor vector of a driver line: `factor=` (float bit patterns) with `scalar=0/1` -/
+def factorArgs (a : Args) : Bool × List Float := (a.nat "scalar" 0 == 1, a.floats "factor")
+
+/-- `int(s * z)` raises on a non-finite product (`ValueError` for NaN, `OverflowError` for ±inf) -/
+def finiteProducts (shape : List Nat) (scalar : Bool) (zs : List Float) : Bool :=
+  ((shape.zip (zoomFactors shape.length scalar zs)).all fun sz => (Float.ofNat sz.1 * sz.2).isFinite)
+
 def showOptFloats (xs : List (Option Float)) : String :=
   ",".intercalate (xs.map fun | some f => toString f.toBits.toNat | none => "u")
 
@@ -359,11 +394,32 @@ def handle (a : Args) : String :=
     -- B-spline expansion of the given coefficients at the sample points
     let r := zoomShift flF order .mirror 0.0 im (shape.map fun _ => none) (shape.map fun _ => none) shape
     s!"spec={showFloats r.data.toList}"
+  | "osh" =>
+    -- the output shape a zoom factor asks for: `ifactor=` an integer vector (exact), else `factor=` floats
+    let r : Option (List Nat) :=
+      if a.has "ifactor" then
+        zoomOutShape (fun (i : Int) => i) shape (zoomFactors shape.length (a.nat "scalar" 0 == 1) (a.ints "ifactor"))
+      else
+        let (sc, zs) := factorArgs a
+        if finiteProducts shape sc zs then zoomOutShape flF shape (zoomFactors shape.length sc zs) else none
+    match r with
+    | some o => s!"oshape={showNats o}"
+    | none => "oshape=none"
+  | "rsi" =>
+    -- `resize_to` on an image of an integer dtype: the float values and their truncation to the dtype
+    let dt := DT.ofName (a.str "dtype")
+    match resizeTo flF (splineFilter order) order im (a.nats "nsize"),
+        resizeToDT flF (splineFilter order) order dt im (a.nats "nsize") with
+    | some o, some c => s!"shape={showNats o.shape} model={showFloats o.data.toList} cast={showOptInts c.data.toList}"
+    | _, _ => "shape=none model=none cast=none"
   | "rs" =>
-    -- the wrappers of `resize.py` on their explicit-shape path
+    -- the wrappers of `resize.py`
     let nsize := a.nats "nsize"
     let r : Option (Img Float) :=
       match a.str "name" with
+      | "imresize_factor" =>
+        let (sc, zs) := factorArgs a
+        if finiteProducts shape sc zs then imresizeFactor flF (splineFilter order) order im sc zs else none
       | "resize_to" => resizeTo flF (splineFilter order) order im nsize
       | "imresize" => imresizeInt flF (splineFilter order) order im nsize
       | "resize_rgb_to" => resizeRgbTo flF (splineFilter order) order im nsize
